@@ -491,7 +491,7 @@ def rule_order(facts, rep):
     consts = {"anstyle::reset::RESET": RESET}
     for it in facts.items("anstyle"):
         if it["dk"] == "AssocConst" and it["path"].startswith(ac.EFF + "::") and isinstance(it.get("value"), int):
-            consts[it["path"]] = ("rec", {"0": ("int", it["value"])})
+            consts[it["path"]] = ("ctor", "anstyle::effect::Effects", ("int", it["value"]))
     for fn in ("render_reset", "write_reset_to"):
         b = facts.body("anstyle", S + fn)
         rep.fn(b["path"])
@@ -502,7 +502,7 @@ def rule_order(facts, rep):
                                                       "core::str::<impl str>::as_bytes": lambda a: a[0]})
             ev.consts = consts
             env = abseval.Env()
-            env[b["params"][0]["name"]] = ("rec", {"fg": fgv, "bg": bgv, "underline": ulv, "effects": ("rec", {"0": ("int", eff)})})
+            env[b["params"][0]["name"]] = ("rec", {"fg": fgv, "bg": bgv, "underline": ulv, "effects": ("ctor", "anstyle::effect::Effects", ("int", eff))})
             if len(b["params"]) > 1:
                 env[b["params"][1]["name"]] = ("sym", "writer")
             try:
